@@ -43,8 +43,10 @@ def work(fn_: Any) -> dict:
         out["cases"] += 1
         try:
             mod = mypycir.build_module_ir(prog)
-        except Exception:
+        except Exception as e:
             out["buildfail"] += 1
+            if fn_.startswith("generated:"):  # my own corpus must build: a silent loss would shrink the claim
+                out["findings"].append({"kind": "harness", "case": name, "fn": "<module>", "detail": f"generated module does not build: {e}"})
             continue
         for f in mod.functions:
             try:
